@@ -321,7 +321,7 @@ def frame_checks(unit):
             rel = os.path.relpath(p, REPO)
             S = Source(rel, _read(p))
             allowed = []
-            for fp in fr.get("only_in", []):
+            for fp in (fr.get("only_in") or []):
                 fkey, fpath = fp.split(":", 1)
                 if unit["files"][fkey] == rel:
                     try:
@@ -334,7 +334,7 @@ def frame_checks(unit):
                 if any(a <= mm.start() <= b for a, b in tests):
                     continue
                 hits += 1
-                if not any(a <= mm.start() <= b for a, b in allowed):
+                if fr.get("only_in") is not None and not any(a <= mm.start() <= b for a, b in allowed):
                     bad.append("%s:%d" % (rel, S.line_of(mm.start())))
         results.append(dict(name=fr["name"], tags=fr.get("tags", []), hits=hits, bad=bad,
                             min_hits=fr.get("min_hits", 1), violation=fr.get("violation", False)))
